@@ -14,14 +14,14 @@ use std::num::NonZeroUsize;
 
 pub const PAT_LEN: usize = 4096;
 /// Payload source: position dependent, mostly values that are never 0xFC (free poison), 0xEE
-/// (placeholder filler) or 0xB0..0xBF (backfill values); two regions hold runs of 0x00 and of 0xFF
+/// (placeholder filler) or 0xB0..0xBF (backfill values); three regions hold runs of 0xFC (the very value the arena poisons freed chunks with: a legal payload byte like any other), of 0x00 and of 0xFF
 /// bytes, so that some payloads are all zeros, all ones, or end / start with such a run (byte
 /// values are opaque to a byte pipe: nothing may depend on them).
 pub static PAT: [u8; PAT_LEN] = {
     let mut a = [0u8; PAT_LEN];
     let mut i = 0;
     while i < PAT_LEN {
-        a[i] = if i >= 3000 && i < 3300 { 0x00 } else if i >= 3300 && i < 3700 { 0xFF } else { 1 + ((i * 7 + i / 173) % 0xAF) as u8 };
+        a[i] = if i >= 2700 && i < 3000 { 0xFC } else if i >= 3000 && i < 3300 { 0x00 } else if i >= 3300 && i < 3700 { 0xFF } else { 1 + ((i * 7 + i / 173) % 0xAF) as u8 };
         i += 1;
     }
     a
@@ -41,6 +41,9 @@ pub enum K {
     PushCopy(u16),
     PushBorrowed(u16),
     Extend,
+    /// `extend` with an iterator that yields a 3-byte and a 70-byte slice and then PANICS (caught by the
+    /// caller): whichever of the yielded slices made it into the pipe, the pipe must stay consistent
+    ExtendPanics,
     PushAnchored(u16),
     Register(u8),
     /// index into the pending list: 0, 1, 2, or 255 = last
@@ -111,6 +114,7 @@ impl Op {
             K::PushCopy(n) => format!("push_copy({})", n),
             K::PushBorrowed(n) => format!("push_borrowed({})", n),
             K::Extend => "extend".to_string(),
+            K::ExtendPanics => "extend_panicking_iterator".to_string(),
             K::PushAnchored(n) => format!("push_anchored({})", n),
             K::ExtendAnchored(n) => format!("extend_anchored({})", n),
             K::AnchorFirst(n) => format!("anchor_then_push_borrowed({})", n),
@@ -164,6 +168,7 @@ impl Op {
             ("push_copy", Some(n)) => K::PushCopy(n as u16),
             ("push_borrowed", Some(n)) => K::PushBorrowed(n as u16),
             ("extend", None) => K::Extend,
+            ("extend_panicking_iterator", None) => K::ExtendPanics,
             ("push_anchored", Some(n)) => K::PushAnchored(n as u16),
             ("extend_anchored", Some(n)) => K::ExtendAnchored(n as u16),
             ("anchor_then_push_borrowed", Some(n)) => K::AnchorFirst(n as u16),
@@ -488,7 +493,7 @@ impl Exec {
 
     fn payload(&mut self, n: usize) -> &'static [u8] {
         self.counter += 1;
-        let off = (self.counter * 331) % (PAT_LEN - 600);
+        let off = (self.counter * 331 + 2500) % (PAT_LEN - 600); // the first payloads of a history start in the 0xFC, 0x00 and 0xFF runs
         &PAT[off..off + n]
     }
 
@@ -602,6 +607,38 @@ impl Exec {
                 s.iov.extend([IoSlice::new(p1), IoSlice::new(&PAT[0..0]), IoSlice::new(p2)]);
                 s.append_bytes(p1);
                 s.append_bytes(p2);
+            }
+            K::ExtendPanics => {
+                let p1 = self.payload(3);
+                let p2 = self.payload(70);
+                let s = self.sides[si].as_mut().unwrap();
+                let before = s.iov.total_size();
+                let mut yielded = 0usize;
+                let it = std::iter::from_fn(|| {
+                    yielded += 1;
+                    match yielded {
+                        1 => Some(IoSlice::new(p1)),
+                        2 => Some(IoSlice::new(p2)),
+                        _ => panic!("the caller's iterator panicked"),
+                    }
+                });
+                let iov = &mut s.iov;
+                let r = std::panic::catch_unwind(std::panic::AssertUnwindSafe(|| iov.extend(it)));
+                if r.is_ok() {
+                    return Err("harness: extend did not exhaust the iterator".into());
+                }
+                // the slices yielded before the panic may or may not have been kept: total_size() says
+                // which prefix of them was, and every view must then agree with it
+                let added = s.iov.total_size().wrapping_sub(before);
+                match added {
+                    0 => {}
+                    3 => s.append_bytes(p1),
+                    73 => {
+                        s.append_bytes(p1);
+                        s.append_bytes(p2);
+                    }
+                    other => return Err(format!("[content] after extend() was interrupted by a panic of the caller's iterator (which had yielded 3 and 70 bytes) total_size() grew by {}", other)),
+                }
             }
             K::PushAnchored(n) => {
                 let p = self.payload(n as usize);
@@ -788,6 +825,24 @@ impl Exec {
                 let mut out: Vec<u8> = vec![0xEE, 0xEF];
                 let (got, reported): (Vec<u8>, usize) = match op.k {
                     K::ReadToEnd => {
+                        // read_to_end only returns once a read reports 0 bytes: first make sure, with one
+                        // plain 1-byte read on the pipe itself, that reads make progress at all (a read
+                        // that hands out bytes without removing them would keep read_to_end busy for ever)
+                        let mut probe_taken: Vec<u8> = Vec::new();
+                        {
+                            let before = s.iov.total_size();
+                            let mut one = [0u8; 1];
+                            let got = s.iov.consumer().read(&mut one).map_err(|e| format!("read failed: {}", e))?;
+                            let after = s.iov.total_size();
+                            if got > 1 || (got == 1 && after + 1 != before) || (got == 0 && after != before) {
+                                return Err(format!("[content] read() into a 1-byte buffer returned {} ({:#04x}) and total_size() went from {} to {}: bytes handed out are not the bytes removed", got, one[0], before, after));
+                            }
+                            if got == 0 && stable > 0 {
+                                return Err(format!("[content] read() returned nothing with {} consumable bytes", stable));
+                            }
+                            probe_taken.extend_from_slice(&one[..got]);
+                        }
+                        let stable = stable - probe_taken.len();
                         let n = s.iov.consumer().read_to_end(&mut out).map_err(|e| format!("read_to_end failed: {}", e))?;
                         if out[..2] != [0xEE, 0xEF] {
                             return Err("[content] read_to_end overwrote the bytes already in the destination".into());
@@ -798,7 +853,10 @@ impl Exec {
                         if n != stable {
                             return Err(format!("[content] read_to_end returned {} with {} consumable bytes (it reads until read() returns 0)", n, stable));
                         }
-                        (out[2..].to_vec(), n)
+                        let mut all = probe_taken.clone();
+                        all.extend_from_slice(&out[2..]);
+                        let total = all.len();
+                        (all, total)
                     }
                     K::ReadExact(n) => {
                         let mut buf = vec![0x77u8; n as usize];
